@@ -2,7 +2,7 @@
 from contracts import search
 from props.common import *  # noqa: F401,F403
 
-FUNCTIONS = SEARCH_FUNCS + DESIGN_FUNCS + [f"{S}:RowWiseModifiedBisectionSearch.calculate_excess"]
+FUNCTIONS = SEARCH_FUNCS + DESIGN_FUNCS + [f"{S}:RowWiseModifiedBisectionSearch.calculate_excess", f"{G}:GHE.size#hourly"]
 NATIVE_FUNCTIONS = SEARCH_NATIVES
 LEVEL = "proof"
 
